@@ -4,11 +4,27 @@ from ..contracts_api import ContractDB
 
 def build_db():
     db = ContractDB()
-    from . import render
+    from . import render, html, attrs
     render.register(db)
+    html.register(db)
+    attrs.register(db)
     return db
 
 
 def extra_lemmas(ctx):
     """lemma schemas contributed by contract modules (beyond the escape-table ones of hv.ground)"""
-    return []
+    from ..ground import Lemma
+    import os
+    have_attrfacts = os.path.exists(os.path.join(os.path.dirname(os.path.dirname(os.path.abspath(__file__))), "lean", "HV", "AttrFacts.lean"))
+    out = [
+        Lemma("L_escT_space", [], "escT(' ') == ' ' and escA(' ') == ' '", "by decide",
+              why="a space is not a key of either escape table (decided on this run's tables)"),
+    ]
+    if not have_attrfacts:
+        return out
+    return out + [
+        Lemma("L_aupdate_nil", [("args", "ArgDicts"), ("kwargs", "ArgDict")],
+              "aupdate(ANil(), mergeCall(args, kwargs)) == mergeCall(args, kwargs)",
+              "by simpa using aupdate_nil_mergeCall realCfg args kwargs", imports=("HV.AttrFacts",),
+              why="dict.update of an empty dict with a dict whose keys are unique (mergeCall builds it with aset)"),
+    ]
